@@ -95,28 +95,10 @@ func runReplay(path string) int {
 		argK = argFS
 	}
 
-	switch q.Func {
-	case "Glob", "ReadDir", "WalkDir":
-	default: // helpers
-		ds, statClass, _ := checkHelpers(in.v, argFS)
-		fmt.Printf("%s(%q) on %s: Stat class %s\n", q.Func, q.Arg, r.FS, statClass)
-
-		code := 0
-
-		for _, d := range ds {
-			if d.Func == q.Func {
-				fmt.Printf("  expected %s, observed %s\n", d.Want, d.Got)
-
-				code = 1
-			}
-		}
-
-		return code
-	}
-
+	// the view of the ordinary user (as in runPerm); the helpers are asked through it too
 	var (
-		want outcome
-		v    avfs.VFS = in.v
+		v        avfs.VFS = in.v
+		uid, gid int
 	)
 
 	if nonadmin {
@@ -140,8 +122,32 @@ func runReplay(path string) int {
 		_ = sub.SetUser(u)
 		_ = sub.Chdir(R)
 		v = sub
+		uid, gid = u.Uid(), u.Gid()
+	}
 
-		if err := asUser(u.Uid(), u.Gid(), func() { want = evalQuery(kernelSide{}, q, argK) }); err != nil {
+	switch q.Func {
+	case "Glob", "ReadDir", "WalkDir":
+	default: // helpers
+		ds, statClass, _ := checkHelpers(v, argFS)
+		fmt.Printf("%s(%q) on %s: Stat class %s\n", q.Func, q.Arg, r.FS, statClass)
+
+		code := 0
+
+		for _, d := range ds {
+			if d.Func == q.Func {
+				fmt.Printf("  expected %s, observed %s\n", d.Want, d.Got)
+
+				code = 1
+			}
+		}
+
+		return code
+	}
+
+	var want outcome
+
+	if nonadmin {
+		if err := asUser(uid, gid, func() { want = evalQuery(kernelSide{}, q, argK) }); err != nil {
 			fmt.Fprintln(os.Stderr, err)
 
 			return 2
